@@ -72,6 +72,12 @@ pub fn shim_panicking() -> bool {
                 sim::all_entries_restored() && sim::live_jits() == 0,
                 "VERIF[C05,C02]: call-count verification (which may panic) runs before the faked functions are restored"
             );
+            // ... and the counter it reads is a static shared by every injector built from the same
+            // fake! line: it must be read while this injector still excludes all others.
+            assert!(
+                lock_held(),
+                "VERIF[C04,C06]: call-count verification runs after the process-wide lock was released (another thread's installation from the same fake! site can reset or advance the counter in between)"
+            );
         }
         sim::S.PANICKING
     }
